@@ -8,6 +8,7 @@
 From Coq Require Import ZArith List Bool.
 From BV Require Import Lib.Cases Model.LaxSem Model.Restart Model.Pool
      Proofs.PoolJobs Proofs.PoolInv Proofs.PoolCor.
+From BV Require Gen.G_pool_shape.
 Import ListNotations.
 Open Scope Z_scope.
 
@@ -55,6 +56,16 @@ Theorem C07_apply_result_credits_owner : forall s x p,
     bump_counter s x = set_proc s p (fun q => mkproc (pid q) (widx q) (pexit q) (controlled q) (jterm q) (counter q + 1)).
 Proof. exact apply_result_credits_owner. Qed.
 Print Assumptions C07_apply_result_credits_owner.
+
+(* every submit path starts with the pool-state guard
+   (facts computed from the AST of /repo/billiard/pool.py on this run; see translate/kernels/poolshape.py) *)
+Theorem C07_code_shape :
+  G_pool_shape.apply_refuses_unless_run = true /\
+  G_pool_shape.map_refuses_unless_run = true /\
+  G_pool_shape.imap_refuses_unless_run = true /\
+  G_pool_shape.imapu_refuses_unless_run = true.
+Proof. repeat split; reflexivity. Qed.
+Print Assumptions C07_code_shape.
 
 Definition c07_cfg := mkcfg 2 None None None None 1 true false.
 Definition c07_tr : list event :=
